@@ -1214,9 +1214,9 @@ def zooModel : List (String × String) :=
    ("slice_unshift", "!throw:TypeError"),
    ("slice_splice_insert", "!throw:TypeError"),
    ("slice_mutators", "ok,ok,ok,ok,ok,ok,ok,ok|go:[1 2 3]"),
-   ("map_forin_delete_during", "6|go:0"),
-   ("map_enumeration_order", "unstable|go:6"),
-   ("slice_forin_shrink_during", "0,1,2|go:[1 2 3]"),
+   ("map_forin_delete_during", "1|go:0"),
+   ("map_enumeration_order", "stable|go:6"),
+   ("slice_forin_shrink_during", "0|go:[1 2 3]"),
    ("struct_promoted_enumeration", "true,x,true|Y,ZIn|Y,ZIn"),
    ("nested_container_identity", "false,false,true"),
    ("setlength_thrown_value", "number:42|go:[1 2 3]"),
@@ -1235,7 +1235,7 @@ def zooModel : List (String × String) :=
    ("store_null_into_pointer_elem", "stored:undefined|go:[{1 []}]|[[1]]|true|[[1 2]]|int:1"),
    ("store_bridged_pointer_into_pointer_elem", "stored:9|go:[{1 []}]|[[1]]|false|[[1 2]]|int:1"),
    ("store_long_array_into_array_elem", "caught:TypeError|go:[{1 []}]|[[1]]|false|[[1 2]]|int:1"),
-   ("store_utf16_string_into_interface_elem", "stored:65|go:[{1 []}]|[[1]]|false|[[1 2]]|[]uint16:[65]"),
+   ("store_utf16_string_into_interface_elem", "stored:A|go:[{1 []}]|[[1]]|false|[[1 2]]|string:A"),
    ("nil_func_reads_undefined", "undefined,undefined|go:[{1 []}]|[[1]]|false|[[1 2]]|int:1")]
 
 end OttoVerif.C16
